@@ -76,7 +76,7 @@ def main():
             "engine": fam,
             "level_claimed": {"category": "exploration", "text": text, "design_ref": ref},
             "level_note": TRUST,
-            "technique": tech,
+            "technique": tech + "; the thorough tier adds a coverage-guided libFuzzer campaign that drives the same interpreter and oracle from decoded bytes",
         })
     props = [json.loads(l)["id"] for l in open(os.path.join(ROOT, "properties.jsonl"))]
     na_path = os.path.join(ROOT, "tools", "not_applicable.json")
